@@ -6,6 +6,7 @@ From ReqV Require Import Lib.Bytes Lib.BigEndian Model.QuicVarint Proofs.QuicVar
 From ReqV Require Import Model.H2Frame Proofs.H2FrameProofs Proofs.H2OrderProofs Proofs.H2ErrorProofs.
 From ReqV Require Import Model.H2Meta Proofs.H2MetaProofs.
 From ReqV Require Import Model.H3Frame Model.H3Spec Proofs.H3FrameProofs Proofs.H3FieldProofs.
+From ReqV Require Import Model.H3Writer Proofs.H3WriterProofs.
 From Coq Require Import Permutation.
 Open Scope N_scope.
 
@@ -317,6 +318,38 @@ Print Assumptions C05_h3_settings_order_irrelevant.
 Theorem C05_h3_settings_append_panics_iff : forall ps, h3_pairs_len ps = None <-> ~ Forall pair_in_range ps.
 Proof. exact pairs_len_none. Qed.
 Print Assumptions C05_h3_settings_append_panics_iff.
+
+(* ---------- two requests on one connection's request writer (request_writer.go) ---------- *)
+
+(* one header buffer + one QPACK encoder per connection, one mutex held from before encoding until
+   after the buffer reset: under EVERY schedule of two concurrent writeHeaders calls (enc = whatever
+   field sections the two requests encode to) a finished call has handed its stream exactly its own
+   HEADERS frame, and the buffer is empty and the mutex free when both are done *)
+Theorem C05_h3_writer_frames_intact : forall enc sched,
+  let st := wrun enc true sched in
+  (t_pc (w_a st) = PDone -> t_out (w_a st) = wframe (enc true)) /\
+  (t_pc (w_b st) = PDone -> t_out (w_b st) = wframe (enc false)) /\
+  (t_pc (w_a st) = PDone -> t_pc (w_b st) = PDone -> w_buf st = [] /\ w_lock st = None).
+Proof. exact writer_frames_intact. Qed.
+Print Assumptions C05_h3_writer_frames_intact.
+
+(* at no point of any schedule has a stream received anything but a prefix of its own frame *)
+Theorem C05_h3_writer_no_foreign_bytes : forall enc sched,
+  let st := wrun enc true sched in
+  (exists r, wframe (enc true) = t_out (w_a st) ++ r) /\ (exists r, wframe (enc false) = t_out (w_b st) ++ r).
+Proof. exact writer_no_foreign_bytes. Qed.
+Print Assumptions C05_h3_writer_no_foreign_bytes.
+
+(* with the lock narrowed to the encoding loop the schedule "B encodes while A is parked in its
+   first Write" glues A's field section to B's on B's stream and leaves A's frame header bare *)
+Theorem C05_h3_writer_narrow_lock_refuted :
+  let enc := fun t : bool => if t then [x0a; x0b] else [x0c] in
+  let st := wrun enc false (park_schedule 1) in
+  t_pc (w_a st) = PDone /\ t_pc (w_b st) = PDone /\
+  t_out (w_b st) = whdr 3 ++ [x0a; x0b; x0c] /\ t_out (w_a st) = whdr 2 /\
+  t_out (w_b st) <> wframe (enc false).
+Proof. exact writer_narrow_lock_refuted. Qed.
+Print Assumptions C05_h3_writer_narrow_lock_refuted.
 
 (* ---------- received field sections (RFC 9114 §4.2, §4.3; internal/http3/headers.go) ---------- *)
 
